@@ -286,6 +286,7 @@ func (m *collection) ResetStackDirtyTop() error {
 	stackDirtyTopPrev := m.stackDirtyTop
 	m.stackDirtyTop = nil
 	m.invalidateLatestSnapshotLOCKED()
+	m.stackDirtyTopCond.Broadcast() // Awake writers waiting for space.
 	m.m.Unlock()
 	stackDirtyTopPrev.Close()
 	return nil
